@@ -256,6 +256,32 @@ mutual
 end
 
 mutual
+  /-- **Python `==` on nested dicts**: leaves are equal; two dicts are equal when they have the same key set
+  (whatever the insertion order) and equal values under every key. Meaningful on well-formed trees (`WF`). -/
+  def DictEq [DecidableEq κ] : Tree κ α → Tree κ α → Prop
+    | .leaf a, u => u = .leaf a
+    | .dict xs, u => ∃ ys, u = .dict ys ∧
+        (∀ k, (Dict.get ys k).isSome = true → (Dict.get xs k).isSome = true) ∧ EntriesIn xs ys
+  /-- every item `(k, c)` of the first dict has a counterpart `ys[k]` that is `DictEq` to `c` -/
+  def EntriesIn [DecidableEq κ] : List (κ × Tree κ α) → List (κ × Tree κ α) → Prop
+    | [], _ => True
+    | (k, c) :: rest, ys => (∃ c', Dict.get ys k = some c' ∧ DictEq c c') ∧ EntriesIn rest ys
+end
+
+mutual
+  /-- the tree restricted to the leaves whose path (relative to the node) satisfies `keep`; structure untouched -/
+  def keepPathsT (keep : Path κ → Bool) : Tree κ α → Option (Tree κ α)
+    | .leaf v => if keep [] then some (.leaf v) else none
+    | .dict kvs => some (.dict (keepPathsKvs keep kvs))
+  def keepPathsKvs (keep : Path κ → Bool) : List (κ × Tree κ α) → List (κ × Tree κ α)
+    | [] => []
+    | (k, c) :: rest =>
+      match keepPathsT (fun p => keep (k :: p)) c with
+      | none => keepPathsKvs keep rest
+      | some c' => (k, c') :: keepPathsKvs keep rest
+end
+
+mutual
   /-- every key that occurs anywhere in the tree -/
   def keysT : Tree κ α → List κ
     | .leaf _ => []
